@@ -43,6 +43,9 @@ use noodles_fastq as fastq;
 use nv::adversary::{Deliver, ScriptedReader};
 use nv::{Case, CaseWriter, Obs, Outcome, Rng, guarded, hex, unhex};
 
+#[path = "../shared/c11_deep4.rs"]
+mod c11_deep4;
+
 // -------------------------------------------------------------------------------------------
 // naive whole-file parse (the truth)
 
@@ -1065,6 +1068,10 @@ fn run(c: &Case) -> Obs {
         "rdw" => run_rd(&c.b(0), false),
         "fq" => run_fq(c),
         "fqr" => run_fqr(c),
+        "qz" => c11_deep4::run_qz(c),
+        "qf" => c11_deep4::run_qf(c),
+        "aq" => c11_deep4::run_aq(c),
+        "fqg" => c11_deep4::run_fqg(c),
         _ => Obs { obs: "-".into(), verdict: "skip".into(), nontrivial: false },
     }
 }
@@ -1674,6 +1681,7 @@ fn gen_fqr(rng: &mut Rng, w: &mut CaseWriter) {
         }
     }
     w.push("fqr", vec![hex(&f)]);
+    w.push("fqg", vec![hex(&f)]);
 }
 
 fn generate(rng: &mut Rng, tier: &str, w: &mut CaseWriter) {
@@ -1749,6 +1757,7 @@ fn generate(rng: &mut Rng, tier: &str, w: &mut CaseWriter) {
     }
     for fx in [&b"@r0\nACGT\n+\nNDLS\n"[..], b"@r0 LN:4\r\nACGT\r\n+r0\r\n@+@+\r\n", b"@\nA\r", b"@r0\r\nAC\r\n+\r\n!!", b"@r0", b"@r0\nAC\n", b"r0\n", b"@r0\nAC\n-\n!!\n", b""] {
         w.push("fqr", vec![hex(fx)]);
+        w.push("fqg", vec![hex(fx)]);
     }
     for _ in 0..300 * scale {
         gen_fqr(rng, w);
@@ -1777,6 +1786,44 @@ fn generate(rng: &mut Rng, tier: &str, w: &mut CaseWriter) {
                 w.push("q", vec![hex(&f), mode, fmt_regions(&regs)]);
             }
         }
+    }
+    // ---- fourth wave: BGZF + gzi (qz), the index through its file (qf), the async reader (aq);
+    // multi-line / malformed FASTQ for the grammar (fqg)
+    let mut r4 = rng.fork();
+    for fx in [&b">a\nACGT\n>b\nTTTT\n"[..], b">sq0\r\nACGT\r\nACGT\r\nAC\r\n>sq1 d\r\nNN\r\n", b">sq0\nACGT"] {
+        c11_deep4::gen_qz(&mut r4, w, fx);
+        c11_deep4::gen_qf(&mut r4, w, fx);
+        c11_deep4::gen_aq(&mut r4, w, fx);
+    }
+    for _ in 0..160 * scale {
+        let recs = gen_recs(&mut r4);
+        let f = render(&recs, !r4.chance(1, 5));
+        c11_deep4::gen_qz(&mut r4, w, &f);
+        if r4.chance(1, 2) {
+            c11_deep4::gen_qf(&mut r4, w, &f);
+        }
+        if r4.chance(1, 2) {
+            c11_deep4::gen_aq(&mut r4, w, &f);
+        }
+    }
+    for fx in [
+        &b"@r\nAC\nGT\n+\n!!\n!!\n"[..], // a wrapped (multi-line) record
+        b"@r\nACGT\n+\n!!\n!!\n",
+        b"@r\nACGT\n+",
+        b"@r\nACGT\n+x",
+        b"@r\nACGT\n+\n",
+        b"@r\nACGT\n+\n!!!!",
+        b"@r\nACGT\n+\n!!!!\r",
+        b"@r\nACGT\n",
+        b"@r\nACGT",
+        b"@r\n",
+        b"@",
+        b"\n",
+        b"@r\nACGT\n+\n!!!!\n\n",
+        b"@r\nACGT\n+\n!!!!\n@",
+    ] {
+        w.push("fqg", vec![hex(fx)]);
+        w.push("fqr", vec![hex(fx)]);
     }
 }
 
